@@ -168,6 +168,16 @@ def run_case(case):
             # nearly pure states: the documented purity tolerance (1e-6) lets the contracting twin replace
             # them by their dominant eigenvector, a move of the order of the deficit (< 1e-5 by construction)
             near = any(b_.get("state", {}).get("cls") == "nearlypure" for b_ in case["layout"]) or any(s_.get("unsharp") is not None for s_ in case["steps"])
+            # ... and a later step that renormalises after a non-unitary map (ladder operators, non-unitary
+            # user operators, any measurement branch) amplifies that move by 1/(weight of the branch), which
+            # has no useful bound: such programs are compared up to the step before
+            amplifying = near and any(
+                s_["k"] in ("measure", "povm") or (s_["k"] == "kraus" and s_.get("nops", 2) == 1 and not s_.get("unitary", True))
+                or (s_["k"] == "op" and (s_["op"]["type"] in ("fock:Annihilation", "fock:Creation") or s_["op"].get("unitary", True) is False))
+                for s_ in case["steps"][: i + 1])
+            if amplifying and i > 0:
+                labels.append("twin-comparison-ends:nearly-pure-state-then-renormalising-step")
+                break
             if td > (1e-2 if trunc else (3e-5 if near else 1e-7)):
                 raise Violation("twin-state", f"after step {i} ({case['steps'][i]['k']}) the joint state with contraction on and with contraction {mode} differ by {td:.3e}", site)
             if len(a[4]) != len(b[4]):
